@@ -32,6 +32,7 @@ use hpool::{
 use serde_json::{Value, json};
 
 #[derive(Clone, Debug)]
+#[allow(dead_code)]
 struct MState {
     pcd: Vec<String>,
     pcw: Vec<String>,
@@ -58,6 +59,7 @@ struct Step {
     to: MState,
 }
 
+#[allow(dead_code)]
 struct Plan {
     limit: usize,
     jobs: Vec<String>,
